@@ -38,6 +38,12 @@ THEOREMS = [
     "TornadoModel.C01.chunked_strict_last_terminator",
     "TornadoModel.C01.never_uncaught",
     "TornadoModel.C01.never_uncaught_eof",
+    "TornadoModel.C01.parseHexInt_toHex_roundtrip",
+    "TornadoModel.C01.chunked_roundtrip_spec",
+    "TornadoModel.C01.chunked_roundtrip",
+    "TornadoModel.C01.chunked_roundtrip_post",
+    "TornadoModel.C01.model_refines_spec",
+    "TornadoModel.C01.model_eq_spec",
 ]
 TRUSTED = [
     "CPython `re` for _ABNF.request_line / field_value / token / host, r'\\r?\\n\\r?\\n', r',\\s*', r'\\r?\\n$' "
@@ -64,11 +70,11 @@ EXHAUSTIVE = {"quick": False, "thorough": False}
 CLAUSES = {
     "split into TCP segments in any way": "feed_append + segmentation_independent (machine level) ; tie: every stream x several segmentations vs Spec.readAll",
     "exactly the sequence of requests a strict reader extracts": "requestLine_iff, bodyKind_*, host_* ; "
-        "tie only: Model.run = Spec.readAll (model_eq_spec_goal), checked on every case through impl=Model and impl|=Spec",
+        "model_refines_spec, model_eq_spec (machine on the whole stream vs the batch reader Spec.readAll: finished requests, in order); also checked on every case through impl=Model and impl|=Spec",
     "conflicting or non-numeric Content-Length": "bodyKind_cl_not_numeric, bodyKind_cl_unequal",
     "Content-Length together with Transfer-Encoding": "bodyKind_cl_te_conflict",
     "a transfer coding other than chunked": "bodyKind_te_not_chunked, bodyKind_chunked_iff",
-    "malformed chunk size or chunk terminator": "parseHexInt_none_iff, chunked_strict_size, chunked_size_line_too_long, chunked_strict_terminator, chunked_strict_last_terminator (one step, any buffer); chunked encode/decode round trip over all chunk lists: tie only",
+    "malformed chunk size or chunk terminator": "parseHexInt_none_iff, chunked_strict_size, chunked_size_line_too_long, chunked_strict_terminator, chunked_strict_last_terminator (one step, any buffer); round trip over all lists of non-empty chunks: parseHexInt_toHex_roundtrip, chunked_roundtrip_spec (batch decoder), chunked_roundtrip / chunked_roundtrip_post (machine)",
     "malformed request line": "requestLine_iff, requestLine_strict",
     "missing/invalid/multiple Host": "host_missing_11, host_invalid, host_comma, host_default_10",
     "delivers nothing further, answers 400 or closes": "reject_is_final, reject400_closed, closeSilent_closed",
@@ -76,7 +82,7 @@ CLAUSES = {
 }
 PARALLEL = True
 CASE_TIMEOUT = 120
-LEVEL_NOTE = "Model.run = Spec.readAll (model_eq_spec_goal) and the chunked encode/decode round trip are tie-only"
+LEVEL_NOTE = "model_eq_spec and the chunked round trip are proved; the batch reader's tail (pending/reject/stop) and bodies are compared with the implementation on every case"
 
 DEFAULT_CFG = {"mh": 65536, "mb": 104857600, "ov": [], "nk": False}
 
